@@ -402,6 +402,13 @@ theorem line_zero_counterexample :
                  ⟨⟨"m".toList, 1, [], []⟩, some ("t".toList, 0, some "last".toList)⟩] = none := by
   decide
 
+/-- F9d: the search for `.lineno` never looks at the first record: a `RichTraceback` built inside a
+    template, whose frame is the first (and only) record, finds no template line although the record is
+    mapped correctly -/
+theorem first_record_skipped_counterexample :
+    Tb.pickLine [⟨⟨"m".toList, 21, [], []⟩, some ("t".toList, 4, some "x = 1/0".toList)⟩] = none := by
+  decide
+
 /-! ## warnings -/
 
 /-- **warning_shown_once**, action `always`: the duplicates raised while the individual fragments are
